@@ -18,6 +18,7 @@ import (
 	"strconv"
 	"strings"
 	"sync"
+	"syscall"
 	"time"
 
 	"grulesim/sim/checks"
@@ -88,6 +89,9 @@ func cmdWorker(a []string) int {
 		fmt.Fprintln(os.Stderr, "worker: unknown property", a[0])
 		return 2
 	}
+	// a worker that runs away in memory must die alone (exit 2), not take the machine with it
+	lim := uint64(6) << 30
+	_ = syscall.Setrlimit(syscall.RLIMIT_AS, &syscall.Rlimit{Cur: lim, Max: lim})
 	tier := a[1]
 	seed, _ := strconv.ParseUint(a[2], 10, 64)
 	shard, _ := strconv.Atoi(a[3])
